@@ -37,12 +37,15 @@ def gen_streams(rng, n=None, mode=None, labels=None, iso_p=0.12, dts=None, hot_p
             if hot != (ts > tt):
                 ts, tt = tt, ts
         nm = f"S{i+1}" if rng.random() >= name_clash_p else "S1"
+        q = float(rng.randrange(1, 90) * 100)
+        if ts == tt and rng.random() < hot_p:
+            q = -q                               # isothermal hot (condensing) stream
         out.append({
             "name": nm,
             "zone": rng.choice(labels),
             "t_supply": ts,
             "t_target": tt,
-            "heat_flow": float(rng.randrange(1, 90) * 100),
+            "heat_flow": q,
             "dt_cont": rng.choice(dts),
             "htc": rng.choice([1.0, 1.0, 0.5, 2.0]),
         })
@@ -147,8 +150,10 @@ def classify(s):
         hot, lo, hi = True, tt, ts
     elif ts < tt:
         hot, lo, hi = False, ts, tt
-    else:
+    elif q >= 0:
         hot, lo, hi = False, ts, ts + ISO       # latent stream: 0.01 K wide, cold for q >= 0
+    else:
+        hot, lo, hi, q = True, ts - ISO, ts, -q  # condensing stream: the sign marks it hot, the duty is |q|
     return hot, lo, hi, q / (hi - lo), dt
 
 
